@@ -274,6 +274,180 @@ theorem identical_zero_upsampled_np_fft {M N : ℕ} (hM : 0 < M) (hN : 0 < N) (x
   rw [correlation_theorem hM hN]
   exact identical_zero_upsampled_np hM hN x hx up hup _ hstrict
 
+/-! ### when the patch maximum is strict (hypothesis `hstrict` of the zero-shift theorems) -/
+
+/-- **Exact characterisation, NumPy patch.**  The upsampled autocorrelation patch has its maximum
+*only* at the zero-offset index iff for every other patch position `(u, v)` some non-zero Fourier
+coefficient `G[k,l]` of the image sees a phase that is not a multiple of `2π`, i.e.
+`M·N·up ∤ N·(u-du)·f_k + M·(v-du)·f_l` (`f` the signed frequencies): the image is not invariant
+under the fractional translation `((u-du)/up, (v-du)/up)`. -/
+theorem patch_strict_max_iff_np {M N up : ℕ} (hM : 0 < M) (hN : 0 < N) (hup : 1 ≤ up) (G : ℕ → ℕ → Cx ℝ) :
+    UniqueMaxAt (sideNp up) (sideNp up) (patchNp M N up (ccF G G) 0 0) (du up) (du up) ↔
+      ∀ u v, u < sideNp up → v < sideNp up → (u ≠ du up ∨ v ≠ du up) →
+        ∃ k, k < M ∧ ∃ l, l < N ∧ ((G k l).re ≠ 0 ∨ (G k l).im ≠ 0) ∧
+          ¬ (((M * N * up : ℕ) : ℤ) ∣
+              (N : ℤ) * ((u : ℤ) - du up) * freq M k + (M : ℤ) * ((v : ℤ) - du up) * freq N l) := by
+  have h := uniqueMax_patch_iff hM hN (by omega : 0 < up) (Or.inl rfl) (ccF G G) (ccF_self_im G) (ccF_self_re G)
+    (sideNp up) (du up) (by unfold sideNp; omega) (posNp up (0 : ℝ)) (fun u => by rw [posNp_zero])
+  have hp : patchNp M N up (ccF G G) 0 0
+      = fun u v => patchAt M N up 1 (ccF G G) (posNp up (0 : ℝ) u) (posNp up (0 : ℝ) v) := rfl
+  rw [hp, h]
+  simp only [ccF_self_re_pos_iff]
+
+/-- **Exact characterisation, torch patch** (snapped coarse position 0, offsets `j - globalShift`). -/
+theorem patch_strict_max_iff_torch {M N up : ℕ} (hM : 0 < M) (hN : 0 < N) (hup : 1 ≤ up) (G : ℕ → ℕ → Cx ℝ) :
+    UniqueMaxAt (sideTorch up) (sideTorch up)
+        (patchTorch M N up (conjF (ccF G G)) (centerTorch up (snapTorch up (0 : ℝ))) (centerTorch up (snapTorch up (0 : ℝ))))
+        (gShift up) (gShift up) ↔
+      ∀ u v, u < sideTorch up → v < sideTorch up → (u ≠ gShift up ∨ v ≠ gShift up) →
+        ∃ k, k < M ∧ ∃ l, l < N ∧ ((G k l).re ≠ 0 ∨ (G k l).im ≠ 0) ∧
+          ¬ (((M * N * up : ℕ) : ℤ) ∣
+              (N : ℤ) * ((u : ℤ) - gShift up) * freq M k + (M : ℤ) * ((v : ℤ) - gShift up) * freq N l) := by
+  have h := uniqueMax_patch_iff hM hN (by omega : 0 < up) (Or.inr rfl) (conjF (ccF G G)) (conjF_self_im G)
+    (conjF_self_re G) (sideTorch up) (gShift up) (by unfold sideTorch gShift du; omega)
+    (posTorch (centerTorch up (0 : ℝ))) (fun u => by rw [posTorch_centre])
+  have hp : patchTorch M N up (conjF (ccF G G)) (centerTorch up (snapTorch up (0 : ℝ))) (centerTorch up (snapTorch up (0 : ℝ)))
+      = fun u v => patchAt M N up (-1) (conjF (ccF G G)) (posTorch (centerTorch up (0 : ℝ)) u)
+          (posTorch (centerTorch up (0 : ℝ)) v) := by
+    rw [snapTorch_zero]; rfl
+  rw [hp, h]
+  have hre : ∀ k l, (conjF (ccF G G) k l).re = (ccF G G k l).re := fun k l => rfl
+  simp only [hre, ccF_self_re_pos_iff]
+
+/-- **A sufficient condition that covers every non-degenerate image**: at least 3 × 3 pixels and a
+non-zero Fourier coefficient at the lowest frequency of each axis (`G[1,0] ≠ 0`, `G[0,1] ≠ 0`).
+Then the NumPy patch maximum is strict for every upsampling factor. -/
+theorem patch_strict_of_axis_coeffs_np {M N up : ℕ} (hM : 3 ≤ M) (hN : 3 ≤ N) (hup : 1 ≤ up) (G : ℕ → ℕ → Cx ℝ)
+    (h10 : (G 1 0).re ≠ 0 ∨ (G 1 0).im ≠ 0) (h01 : (G 0 1).re ≠ 0 ∨ (G 0 1).im ≠ 0) :
+    UniqueMaxAt (sideNp up) (sideNp up) (patchNp M N up (ccF G G) 0 0) (du up) (du up) := by
+  rw [patch_strict_max_iff_np (by omega) (by omega) hup]
+  intro u v hu hv hne
+  have hf0M : freq M 0 = 0 := freq_zero (by omega)
+  have hf0N : freq N 0 = 0 := freq_zero (by omega)
+  have hbound : ∀ w, w < sideNp up → |(w : ℤ) - du up| < 3 * (up : ℤ) := by
+    intro w hw
+    unfold sideNp du at *
+    rw [abs_lt]; constructor <;> omega
+  by_cases hu0 : u = du up
+  · have hv0 : v ≠ du up := by rcases hne with h | h; exact absurd hu0 h; exact h
+    refine ⟨0, by omega, 1, by omega, h01, ?_⟩
+    rw [hu0, hf0M, freq_one hN, sub_self]
+    have := not_dvd_axis (M := N) (N := M) (up := up) hN (by omega) ((v : ℤ) - du up)
+      (sub_ne_zero.mpr (by exact_mod_cast hv0)) (hbound v hv)
+    intro hd; apply this
+    have e : ((N * M * up : ℕ) : ℤ) = ((M * N * up : ℕ) : ℤ) := by push_cast; ring
+    rw [e]
+    convert hd using 1; ring
+  · refine ⟨1, by omega, 0, by omega, h10, ?_⟩
+    rw [hf0N, freq_one hM]
+    have := not_dvd_axis (M := M) (N := N) (up := up) hM (by omega) ((u : ℤ) - du up)
+      (sub_ne_zero.mpr (by exact_mod_cast hu0)) (hbound u hu)
+    intro hd; apply this
+    convert hd using 1; ring
+
+/-- the same sufficient condition for the torch patch -/
+theorem patch_strict_of_axis_coeffs_torch {M N up : ℕ} (hM : 3 ≤ M) (hN : 3 ≤ N) (hup : 1 ≤ up) (G : ℕ → ℕ → Cx ℝ)
+    (h10 : (G 1 0).re ≠ 0 ∨ (G 1 0).im ≠ 0) (h01 : (G 0 1).re ≠ 0 ∨ (G 0 1).im ≠ 0) :
+    UniqueMaxAt (sideTorch up) (sideTorch up)
+      (patchTorch M N up (conjF (ccF G G)) (centerTorch up (snapTorch up (0 : ℝ))) (centerTorch up (snapTorch up (0 : ℝ))))
+      (gShift up) (gShift up) := by
+  rw [patch_strict_max_iff_torch (by omega) (by omega) hup]
+  intro u v hu hv hne
+  have hf0M : freq M 0 = 0 := freq_zero (by omega)
+  have hf0N : freq N 0 = 0 := freq_zero (by omega)
+  have hbound : ∀ w, w < sideTorch up → |(w : ℤ) - gShift up| < 3 * (up : ℤ) := by
+    intro w hw
+    unfold sideTorch gShift du at *
+    rw [abs_lt]; constructor <;> omega
+  by_cases hu0 : u = gShift up
+  · have hv0 : v ≠ gShift up := by rcases hne with h | h; exact absurd hu0 h; exact h
+    refine ⟨0, by omega, 1, by omega, h01, ?_⟩
+    rw [hu0, hf0M, freq_one hN, sub_self]
+    have := not_dvd_axis (M := N) (N := M) (up := up) hN (by omega) ((v : ℤ) - gShift up)
+      (sub_ne_zero.mpr (by exact_mod_cast hv0)) (hbound v hv)
+    intro hd; apply this
+    have e : ((N * M * up : ℕ) : ℤ) = ((M * N * up : ℕ) : ℤ) := by push_cast; ring
+    rw [e]
+    convert hd using 1; ring
+  · refine ⟨1, by omega, 0, by omega, h10, ?_⟩
+    rw [hf0N, freq_one hM]
+    have := not_dvd_axis (M := M) (N := N) (up := up) hM (by omega) ((u : ℤ) - gShift up)
+      (sub_ne_zero.mpr (by exact_mod_cast hu0)) (hbound u hu)
+    intro hd; apply this
+    convert hd using 1; ring
+
+/-- **Zero shift at every upsampling factor without the strictness hypothesis** (NumPy, on the
+code's own FFT formulas): unique correlation peak, at least 3 × 3 pixels and non-zero lowest
+Fourier coefficients on both axes suffice. -/
+theorem identical_zero_upsampled_np_of_axis_coeffs {M N : ℕ} (hM : 3 ≤ M) (hN : 3 ≤ N) (x : ℕ → ℕ → ℝ)
+    (hx : UniquePeak M N x) (up : ℕ) (hup : 1 ≤ up)
+    (h10 : (dft2At M N x 1 0).re ≠ 0 ∨ (dft2At M N x 1 0).im ≠ 0)
+    (h01 : (dft2At M N x 0 1).re ≠ 0 ∨ (dft2At M N x 0 1).im ≠ 0) :
+    shiftNpUp M N up (ccRealFFT M N x x) (ccRealFFT M N x x) (ccF (dft2At M N x) (dft2At M N x)) = (0, 0) :=
+  identical_zero_upsampled_np_fft (by omega) (by omega) x hx up hup
+    (patch_strict_of_axis_coeffs_np hM hN hup _ h10 h01)
+
+/-- **Ties really occur**: for a single-column image (`N = 1`) the patch does not depend on the
+column offset, so the strictness hypothesis fails for every image and every factor — the first-maximum
+rule then picks column index 0 and the "identical images ⇒ zero shift" clause is not provable there. -/
+theorem patch_strict_single_column_counterexample {M up : ℕ} (hM : 0 < M) (hup : 1 ≤ up) (G : ℕ → ℕ → Cx ℝ) :
+    ¬ UniqueMaxAt (sideNp up) (sideNp up) (patchNp M 1 up (ccF G G) 0 0) (du up) (du up) := by
+  rw [patch_strict_max_iff_np hM (by norm_num) hup]
+  intro h
+  have hd := du_pos hup
+  obtain ⟨k, _, l, hl, _, hnd⟩ := h (du up) (du up + 1) (by unfold sideNp; omega) (by unfold sideNp; omega)
+    (Or.inr (by omega))
+  apply hnd
+  have hl0 : l = 0 := by omega
+  subst hl0
+  have : freq 1 0 = 0 := freq_zero (by norm_num)
+  rw [this]; simp
+
+/-- … and for a constant image (only the DC coefficient is non-zero) in any shape. -/
+theorem patch_strict_constant_image_counterexample {M N up : ℕ} (hM : 0 < M) (hN : 0 < N) (hup : 1 ≤ up)
+    (G : ℕ → ℕ → Cx ℝ) (hG : ∀ k l, (k ≠ 0 ∨ l ≠ 0) → (G k l).re = 0 ∧ (G k l).im = 0) :
+    ¬ UniqueMaxAt (sideNp up) (sideNp up) (patchNp M N up (ccF G G) 0 0) (du up) (du up) := by
+  rw [patch_strict_max_iff_np hM hN hup]
+  intro h
+  have hd := du_pos hup
+  obtain ⟨k, _, l, _, hne, hnd⟩ := h (du up + 1) (du up) (by unfold sideNp; omega) (by unfold sideNp; omega)
+    (Or.inl (by omega))
+  by_cases hkl : k ≠ 0 ∨ l ≠ 0
+  · have := hG k l hkl
+    rcases hne with h1 | h1
+    · exact h1 this.1
+    · exact h1 this.2
+  · rw [not_or, not_not, not_not] at hkl
+    apply hnd
+    rw [hkl.1, hkl.2, freq_zero hM, freq_zero hN]; simp
+
+/-- the 3 × 3 image with a single bright pixel -/
+def deltaImg : ℕ → ℕ → ℝ := fun i j => if i = 0 ∧ j = 0 then 1 else 0
+
+theorem deltaImg_dft (k l : ℕ) : (dft2At 3 3 deltaImg k l).re = 1 := by
+  unfold dft2At dft2AtW
+  rw [csum_re]
+  simp only [Finset.sum_range_succ, Finset.sum_range_zero, csum_re, deltaImg]
+  simp [Cx.smul, root]
+
+theorem deltaImg_uniquePeak : UniquePeak 3 3 deltaImg := by
+  intro s t hs ht hne
+  have hs' : s = 0 ∨ s = 1 ∨ s = 2 := by omega
+  have ht' : t = 0 ∨ t = 1 ∨ t = 2 := by omega
+  rcases hs' with rfl | rfl | rfl <;> rcases ht' with rfl | rfl | rfl <;>
+    first
+      | (exfalso; omega)
+      | (rw [cc_eq, cc_eq]; simp [Finset.sum_range_succ, deltaImg, wrap]; try norm_num)
+
+/-- **Non-vacuity of the zero-shift theorems, with every hypothesis discharged**: for the 3 × 3
+single-pixel image, `cross_correlation_shift(x, x, upsample_factor=up)` as modelled on the code's own
+FFT formulas is exactly `(0, 0)` for *every* `up ≥ 1`. -/
+theorem identical_zero_upsampled_np_delta (up : ℕ) (hup : 1 ≤ up) :
+    shiftNpUp 3 3 up (ccRealFFT 3 3 deltaImg deltaImg) (ccRealFFT 3 3 deltaImg deltaImg)
+      (ccF (dft2At 3 3 deltaImg) (dft2At 3 3 deltaImg)) = (0, 0) :=
+  identical_zero_upsampled_np_of_axis_coeffs (by norm_num) (by norm_num) deltaImg deltaImg_uniquePeak up hup
+    (Or.inl (by rw [deltaImg_dft]; norm_num)) (Or.inl (by rw [deltaImg_dft]; norm_num))
+
 /-! ### non-vacuity -/
 
 /-- a 2×3 image with a bright pixel: its autocorrelation peak is unique -/
